@@ -33,6 +33,7 @@ def handle (line : String) : String :=
       | "ratios"  => handleRatios fs
       | "exc"     => handleExc fs
       | "hist"    => handleHist fs
+      | "handover" => handleHandover fs
       | _ => none
     r.getD "bad-op"
 
